@@ -505,13 +505,13 @@ type Features struct {
 	NullAggField bool `json:"null_agg_field"`
 	// UnknownBoolEqFalse: the predicate tests `f = false` for a boolean field f that no row of the data set has a value
 	// for (the field does not exist in the measurement)
-	UnknownBoolEqFalse bool   `json:"unknown_bool_eq_false"`
+	UnknownBoolEqFalse bool `json:"unknown_bool_eq_false"`
 	// PointBeforeTmin / PointAfterTmax: some series passing the tag tests holds a stored point before the lower / after the
 	// upper time bound of the statement (then the bound of its first chunk is not the time of its first returned row)
-	PointBeforeTmin bool `json:"point_before_tmin"`
-	PointAfterTmax  bool `json:"point_after_tmax"`
-	HasTie             bool   `json:"has_tie"` // plain selection: two rows of one group share a timestamp
-	Layout             string `json:"layout"`  // inorder | ooo (how the data set was written)
+	PointBeforeTmin bool   `json:"point_before_tmin"`
+	PointAfterTmax  bool   `json:"point_after_tmax"`
+	HasTie          bool   `json:"has_tie"` // plain selection: two rows of one group share a timestamp
+	Layout          string `json:"layout"`  // inorder | ooo (how the data set was written)
 }
 
 func tagOnly(p *Pred) bool {
